@@ -9,6 +9,10 @@ CHECKS = {
              note="trusted: std container/iterator models, block hash = injective block id, ledger calls stubbed to recorders; bounds: trees <= 5 (quick) / 7 (thorough) blocks"),
  'C03': dict(text="bounded symbolic execution of get_stable_child / peek / pop / ingest_stable_blocks_into_utxoset from the MIR: every tree up to the bound x 3 networks with symbolic difficulties and threshold, plus skeletons with 1500-block tails for the testnet escape, decided against the rule of the statement in both directions; every pause/resume schedule of the stubbed ingestion",
              note="trusted: depth-bound f64 function replaced by the table of the real function evaluated natively per block count; UTXO ingestion stubbed to a pausing state machine; bounds: trees <= 5/6 blocks, tails of difficulty 1, threshold >= 1, difficulty < 2^64"),
+ 'C04': dict(text="bounded symbolic execution of get_main_chain + get_utxos_from_chain with symbolic min_confirmations on every tree up to the bound: the applied blocks and the named tip are the statement's block B; too-large c gives the explicit error with given/max",
+             note="trusted: overlay content stubbed to a recorder (content is C01), block hash = injective id; bounds: trees <= 6/7 blocks"),
+ 'C05': dict(text="bounded symbolic execution of get_balance_private vs get_utxos_from_chain (and the query variants) on every tree up to the bound with symbolic c and nondeterministic address-parser outcome: same cut, same errors, same computation for query and update; the value part on the overlay is decided with C01",
+             note="trusted: address text codec stubbed to its three outcomes; ledger lookups are recorders; known finding F4 (cut notions differ on forks) is listed in known_findings.json"),
 }
 NA = {
 }
